@@ -181,7 +181,7 @@ func VerifC15Neighbour() {
 	q := vsym.Param("q")
 	a, da := vGenBitmap("a")
 	t := vArg32()
-	y := vArg32()
+	y := vsym.U32() // the probe is NOT confined to the target's window
 	switch q {
 	case 0:
 		r := a.NextValue(t)
@@ -227,7 +227,7 @@ func VerifC15Container() {
 	q := vsym.Param("q")
 	c, d := vGenContainer(vsym.Param("k"), vsym.Param("s"))
 	t := uint16(vArg32())
-	y := uint16(vArg32())
+	y := vsym.U16() // the probe is NOT confined to the target's window: the nearest absent / present value can be far away
 	switch q {
 	case 0:
 		r := c.nextValue(t)
